@@ -7,10 +7,9 @@ from . import build, reduce as reducer, runner
 AVOID_V8 = {
     "fn_to_string",             # boa has no source text for Function.prototype.toString (implementation limitation, outside C01's fragment)
     "v8_accessor_spread_order", # V8 defines accessors of an object literal with a spread after its data properties (deviates from 13.2.5.5)
-    "stmt_completion_value",    # open finding C01-K1: completion value of a script after a lexical declaration / empty statements
+    "stmt_completion_value",    # open finding K8 (`10; L: { break L; }`): programs end in an expression statement
     "error_to_string",          # String(error) exposes message text, which is implementation-defined
     "logical_assign_nonlexical",  # open finding C03-K1: short-circuit logical assignment to a var/parameter/global leaves a reference behind
-    "assign_const_in_tdz",      # open finding C01-K2: assignment to a const inside its own TDZ throws TypeError instead of ReferenceError
 }
 
 
